@@ -20,7 +20,7 @@ def obligations(tier):
                               desc="cbor_load on the skeleton and on EVERY truncation of it (exact-size heap block, freed right after the call); on success describe/size/serialize(symbolic n)/copy/release; "
                                    "CBMC object-bounds, NULL, use-after-free, double-free, leak, signed-overflow, shift checks + live CBOR_ASSERT; unwinding assertions = termination")
     import skeleton as sk
-    o += tc.batch_obligations("load_safety_huge_declared_sizes", sk.huge_family(), "h_load.c", {"P_SAFETY": 1, "P_RECORD": 1}, variant="dbg", truncations=True, weight_cap=8, max_cases=1, funcs=F, timeout=900, paths_first=True,
+    o += tc.batch_obligations("load_safety_huge_declared_sizes", [dict(x, truncs=[len(x["bytes"]) // 2, len(x["bytes"])]) for x in sk.huge_family()], "h_load.c", {"P_SAFETY": 1, "P_RECORD": 1}, variant="dbg", truncations=True, weight_cap=8, max_cases=1, funcs=F, timeout=900, paths_first=True,
                               unwindset=["%s:3" % f for f in tc.REC_FUNCS] + ["%s:2" % l for l in tc.REC_LOOPS] + ["_cbor_highest_bit.0:66"],
                               desc="heads declaring 2^32 .. 2^64-1 elements / bytes (8-byte count forms, at top level, tagged, nested, as a chunk) under an allocator that refuses requests above 4 KiB: "
                                    "the decoder fails cleanly; an under-allocated table written past its end is an object-bounds violation")
